@@ -16,13 +16,27 @@ def model(kind, maxlen, vals=(0, 1, 3), weights=(0, 1, 2), times=(0, 1, 2, 4)):
 
 
 def check_kind(ctx: Ctx, kind, maxlen, variants=("plain", "event", "listened"), vals=(0, 1, 3), label=None, max_paths=None,
-               affine=dst.AFFINE, repeat=(1, 200)):
+               affine=dst.AFFINE, repeat=(1, 200), all_paths=False):
     files, mod, cfg = model(kind, maxlen, vals=vals)
     nodes, edges, inits, r = tlc.dump_graph(mod, cfg, extra_files=files, workers=8, timeout=2400)
     ctx.add_tlc(label or f"Stats[{kind}] histories <= {maxlen}", r)
     if not r.ok:
         raise tlc.MachineryError(f"Stats.tla[{kind}] violates {r.violated}")
-    paths, ncov = graphs.edge_cover(nodes, edges, inits)
+    if all_paths:
+        out = {}
+        for k, (u, lab, v) in enumerate(edges):
+            out.setdefault(u, []).append(k)
+        paths = []
+        stack = [(inits[0], [])]
+        while stack:
+            u, p = stack.pop()
+            if u not in out:
+                paths.append(p)
+                continue
+            for k in out[u]:
+                stack.append((edges[k][2], p + [k]))
+    else:
+        paths, ncov = graphs.edge_cover(nodes, edges, inits)
     if max_paths and len(paths) > max_paths:
         step = len(paths) / max_paths
         paths = [paths[int(i * step)] for i in range(max_paths)]
@@ -39,7 +53,12 @@ def check_kind(ctx: Ctx, kind, maxlen, variants=("plain", "event", "listened"), 
             op = dict(st["op"])
             v = rp.apply(op)
             probs = [v] if v else []
-            probs += rp.compare(st["g"])
+            if kind == "tally" and pi % 3 == 2:
+                # sparse querying: one confidence interval per epoch (just before an initialise / at the end)
+                nxt = states[si + 1]["op"]["a"] if si + 1 < len(states) else "end"
+                probs += rp.compare(st["g"], alphas=(0.05,) if nxt in ("Initialize", "end") else ())
+            else:
+                probs += rp.compare(st["g"])
             if op["a"].startswith("Register") and op.get("res") == "ok":
                 probs += rp.published()
             for key, detail in probs:
